@@ -71,13 +71,13 @@ var keyBytes = []byte{0x00, 0x01, 0x10, 0x11, 0xf0, 0xff, 0x0a, 0xa0}
 // truncations of earlier keys, keys longer than 63 nibbles. Values: lengths
 // biased to 0/1/31/32/33/40/64 with a rare 4 KiB one.
 type gen struct {
-	k       *kernel.K
-	keys    [][]byte
-	prevV   [][]byte
-	valCtr  int
-	noEmpty bool // no empty values
+	k          *kernel.K
+	keys       [][]byte
+	prevV      [][]byte
+	valCtr     int
+	noEmpty    bool // no empty values
 	noEmptyKey bool
-	noLong  bool // no keys of 32 bytes or more
+	noLong     bool // no keys of 32 bytes or more
 }
 
 func (g *gen) remember(key []byte) {
